@@ -6,6 +6,7 @@ Cap = 2
 AllowRetire = TRUE
 FixRetire = FALSE
 FixReset = TRUE
+FixRetireSet = FALSE
 INVARIANTS AtMostOnce JoinAfterDone QueueOK
 PROPERTY Live
 CONSTANT defaultInitValue = defaultInitValue
